@@ -350,7 +350,10 @@ def run(tier, seed):
     assert lr1.selftest()
     bin_ = core.build_lalrpop()
     base = core.seed_for("C03", seed) % (2 ** 31)
-    n = {"quick": (1000, 600, 500, 800, 900), "thorough": (12000, 6000, 4000, None, 8000)}[tier]
+    n = {"quick": (1000, 600, 500, 800, 900), "thorough": (5000, 3000, 2500, 8000, 5000)}[tier]
+    if os.environ.get("VERIF_C03_ALL_TINY2"):
+        # the whole two-nonterminal space (53361 grammars x 3 configurations, about an hour on 16 idle cores)
+        n = n[:3] + (None,) + n[4:]
     specs = []
     wr = chk.work
     for rules in tiny_space():
